@@ -76,7 +76,7 @@ func ruleC13GlobalLockset(c *Ctx) {
 		}
 	}
 	for _, g := range globals {
-		key := "global/" + g.Name()
+		key := "global/" + globalName(g)
 		type acc struct {
 			fn    *ssa.Function
 			in    ssa.Instruction
@@ -1130,7 +1130,10 @@ func ruleC13ParallelEvaluators(c *Ctx) {
 	c.Check(len(why) == 0, "c13.parallel-evaluators", "comparison/AND/OR", c.P.Pos(roots[0].Pos()), fmt.Sprintf("%d functions reachable from the admitted evaluators write no query state", len(seen)), strings.Join(uniq(why), "; ")+": evaluated from one goroutine per key by the PARALLEL join, unsynchronised (fatal error: concurrent map writes, or a lost update)")
 }
 
-func init() { register("C13", ruleC13CatalogResolvesThunks); register("C10", ruleC13CatalogResolvesThunks) }
+func init() {
+	register("C13", ruleC13CatalogResolvesThunks)
+	register("C10", ruleC13CatalogResolvesThunks)
+}
 
 // ruleC13CatalogResolvesThunks: what the parallel matchers compare is plain data, not a lazy CTE entry.
 func ruleC13CatalogResolvesThunks(c *Ctx) {
@@ -1161,7 +1164,10 @@ func ruleC13CatalogResolvesThunks(c *Ctx) {
 	c.Check(resolves, "c13.catalog-resolves-thunks", "ToCatalog", c.P.Pos(f.Pos()), "a key column that is a lazy CTE entry is evaluated while the catalog is built", "ToCatalog stores whatever the selector reader returns as a key value: a lazy CTE entry (`… u PARALLEL LEFT JOIN dual ON u.a > c1`) stays a thunk in the key map and is called by ValueOf from every goroutine of the parallel matcher, each call writing the shared CTE registry")
 }
 
-func init() { register("C13", ruleC13GoroutineRowSnapshot); register("C10", ruleC13GoroutineRowSnapshot) }
+func init() {
+	register("C13", ruleC13GoroutineRowSnapshot)
+	register("C10", ruleC13GoroutineRowSnapshot)
+}
 
 // ruleC13GoroutineRowSnapshot: a call that runs next to the query does not share the query's live row.
 func ruleC13GoroutineRowSnapshot(c *Ctx) {
